@@ -42,6 +42,24 @@ CHECKS = {
                         "and by a catalogue of black-box fault scenarios (unreadable inputs, /dev/full, unwritable "
                         "tee/split/redirect targets, closed pipes) whose expected outcome is the property itself."),
         note=PIPE_TRUST),
+    "C19": dict(
+        engine="inplace",
+        technique="TLA+ model checking (TLC) of InPlace.tla with Crash enabled in every state; crash points enumerated by "
+                  "TLC and replayed on the rebuilt binary (SIGKILL at the hook site); hook log and resulting directory "
+                  "validated against the specification (InPlaceTrace.tla)",
+        level=dict(category="model_checking", design_ref="DESIGN.md §4.2, §5 C19",
+                   text="InPlace.tla is processFileInPlace step by step (one action per hook) plus Crash in every state and "
+                        "Abort. TLC checks Atomic, LaterUntouched, EarlierDone, NoTempAfterErrReturn, SuccessMeansAll, "
+                        "RefusedBeforeModify, RenameOnlyComplete exhaustively for all file lists of <= 3 files over 11 file "
+                        "kinds. InPlaceGen enumerates every (scenario, crash point); the real binary is killed at each; "
+                        "InPlaceTrace.tla requires the hook log to be a behaviour of the specification and the directory "
+                        "found afterwards to be the specification's post-crash state. Independently of the model each "
+                        "named file's bytes are compared with the original and with what the same command without -I "
+                        "prints for that file alone."),
+        note="SIGKILL stands for a crash (no fsync modelling). Crash points are the hook sites of processFileInPlace, every "
+             "written record and the final flush. Quick tier: all scenarios of <= 2 files and a seeded sample of 3-file "
+             "scenarios; thorough: all. Trusted: TLC, hook placement (corruption self-test on every run), chattr +i as the "
+             "unwritable directory."),
 }
 
 NOT_BUILT = "engine not built yet in this round (see DESIGN.md §9 work order)"
@@ -80,6 +98,7 @@ def main():
     for c in checks:
         engines.setdefault(c["engine"], []).append(c["property_id"])
     ENGINE_INFO = {
+        "inplace": ("spec/InPlace.tla", "TLA+ spec of the -I protocol + TLC-enumerated crash replay + trace/state validation"),
         "pipeline": ("spec/Pipeline.tla", "TLA+ spec of the goroutine/channel skeleton + TLC exhaustive runs + trace "
                                           "validation + TLC-judged real executions"),
     }
